@@ -1141,6 +1141,67 @@ pub fn c13_directory_level(tier: Tier) -> DirLevel {
                 }
             }
         }
+        // many findings of one pattern in one file (more than a thousand), and a function with several memory parameters on
+        // lines of their own: the same directory rendered six times (both listing orders, three times each, fresh threads,
+        // hence fresh hash seeds) gives the same bytes
+        {
+            let root2 = dir.join("many");
+            let many = format!(
+                "pragma solidity 0.8.19;\ncontract Many {{\n  uint256 i;\n  function f(\n    bytes memory first,\n    string memory second,\n    uint256[] memory third\n  ) external returns (uint256) {{\n{}    return i;\n  }}\n}}\n",
+                "    i++;\n".repeat(1001)
+            );
+            let tree2 = vec![file("Many.sol", many.as_bytes()), file("D.sol", crate::c15::BODY_B.as_bytes())];
+            materialise(&root2, &tree2);
+            let r2 = root2.to_str().unwrap().to_string();
+            let orders2 = all_orders(&root2, &tree2);
+            let all_o = opt::get_all_optimizations();
+            let all_v = vul::get_all_vulnerabilities();
+            let all_q = qa::get_all_qa();
+            let mut reps2: Vec<(usize, Result<String, String>)> = Vec::new();
+            for round in 0..3 {
+                for (k, order) in orders2.iter().enumerate() {
+                    let (r2, order, all_o, all_v, all_q) = (r2.clone(), order.clone(), all_o.clone(), all_v.clone(), all_q.clone());
+                    let rep = std::thread::spawn(move || {
+                        solstat::verif_fs::set_order(order);
+                        let rep = util::guarded(|| {
+                            let mut rep = String::new();
+                            rep.push_str(&solstat::report::vulnerability_report::generate_vulnerability_report(vul::analyze_dir(&r2, all_v)));
+                            rep.push_str(&solstat::report::optimization_report::generate_optimization_report(opt::analyze_dir(&r2, all_o)));
+                            rep.push_str(&solstat::report::qa_report::generate_qa_report(qa::analyze_dir(&r2, all_q)));
+                            rep
+                        });
+                        solstat::verif_fs::clear_order();
+                        rep
+                    })
+                    .join()
+                    .unwrap_or_else(|_| Err("thread panicked".into()));
+                    reps2.push((round * 10 + k, rep));
+                }
+            }
+            dl.states += reps2.len() as u64;
+            dl.transitions += 3 * reps2.len() as u64;
+            let first = reps2.first().map(|x| x.1.clone());
+            for (k, rep) in &reps2 {
+                match (rep, &first) {
+                    (Ok(a), Some(Ok(f0))) => {
+                        reports_seen.insert(util::fnv(a));
+                        if a != f0 {
+                            dl.violations.push(Violation {
+                                site: "directory:report-differs-between-repetitions:many-findings".into(),
+                                input: format!("tree {} (1001 increments and three memory parameters in one file), rendering #{}", describe(&tree2), k),
+                                expected: "byte-identical rendering every time".into(),
+                                observed: "differs from the first rendering".into(),
+                                size: 2,
+                                unit_test: String::new(),
+                                extra: json!({"first_len": f0.len(), "other_len": a.len()}),
+                            });
+                        }
+                    }
+                    (Err(e), _) => dl.violations.push(Violation { site: "directory:panic".into(), input: describe(&tree2), expected: "returns".into(), observed: e.clone(), size: 0, unit_test: String::new(), extra: json!({}) }),
+                    _ => {}
+                }
+            }
+        }
         fn orders_of(n: usize) -> Vec<Vec<usize>> {
             let id: Vec<usize> = (0..n).collect();
             let mut v = vec![id.clone(), id.iter().rev().cloned().collect()];
